@@ -129,7 +129,7 @@ func storeKindOf(w *World) (*storeKind, error) {
 		}
 	}
 	for _, fn := range w.Funcs {
-		if fn.Name() == "getIndex" && fn.Signature.Recv() != nil {
+		if fnShortName(fn) == "getIndex" && fn.Signature.Recv() != nil {
 			k.GetIndex = fn
 		}
 	}
@@ -421,7 +421,7 @@ func ruleSearchOrdering(r *Run, rule string, k *storeKind) {
 	allInstrs(fn, func(in ssa.Instruction) {
 		if call, ok := in.(*ssa.Call); ok {
 			if g := staticCallee(call.Common()); g != nil {
-				switch g.Name() {
+				switch fnShortName(g) {
 				case "mergeResults":
 					merge = in
 				case "sortResultsByScore":
